@@ -974,6 +974,8 @@ def run_case(world, case, creds, rep, only=None):
     rep["evaluations"] += 1
     rep["counters"]["admin_reference_requests"] += 1
     rep["counters"]["admin_reference_status_%dxx" % (ref_st // 100)] += 1
+    if ref_st >= 300:
+        rep["ref_non2xx"].append("%s: %s %s" % (case.name(), ref_st, ref_body[:90].decode("latin1").replace("\n", " ")))
     if not reached:
         rep["counters"]["cases_not_reaching_handler"] += 1
         rep["unreached"].append("%s: admin reference %s" % (case.name(), ref_st))
@@ -1174,7 +1176,7 @@ def stage1(tier, scratch):
 def new_report():
     from collections import defaultdict
     return dict(evaluations=0, samples=[], violations=[], n_violations=0, counters=defaultdict(int), exhaustive=True, notes=[],
-                _distinct=set(), _per_kind={}, unreached=[], other_status=[], sufficient_rejected=[], uncovered=[])
+                _distinct=set(), _per_kind={}, unreached=[], other_status=[], sufficient_rejected=[], uncovered=[], ref_non2xx=[])
 
 
 def build_cases(product, routes, examples_info, rep):
@@ -1364,7 +1366,7 @@ def run(tier, replay):
         for r in reps:
             covered |= set(r.get("covered") or [])
             r["_distinct"] = set(r["_distinct"])
-            for k in ("unreached", "other_status", "sufficient_rejected", "uncovered"):
+            for k in ("unreached", "other_status", "sufficient_rejected", "uncovered", "ref_non2xx"):
                 for x in r.get(k) or []:
                     if x not in rep[k]:
                         rep[k].append(x)
@@ -1382,6 +1384,8 @@ def run(tier, replay):
             rep["notes"].append(u)
         if rep["unreached"]:
             rep["notes"].append("requests that do not reach a handler as administrator (not counted as non-trivial): " + "; ".join(sorted(rep["unreached"])[:30]))
+        if rep["ref_non2xx"]:
+            rep["notes"].append("administrator reference requests not answered 2xx (the request still reached the handler unless 404/405): " + "; ".join(sorted(rep["ref_non2xx"])[:40]))
         if rep["other_status"]:
             rep["notes"].append("insufficient credentials turned away with a status other than 401/403 (lenient, state unchanged): " + "; ".join(sorted(rep["other_status"])[:25]))
         if rep["sufficient_rejected"]:
